@@ -14,6 +14,8 @@ package payload
 
 // ---------------------------------------------------------------- packing (C11)
 
+//@ spec psum(parts []*part, lo int, hi int) int64 = ite(hi <= lo, 0, psum(parts, lo, hi-1) + (parts[hi-1].end - parts[hi-1].beg))
+
 //@ func NewBin
 //@   ensures fresh-bin: typeis(result, *Bin) && fresh(as(result, *Bin)) && as(result, *Bin).capacity == size && as(result, *Bin).bytes == 0 && len(as(result, *Bin).parts) == 0
 //@   ensures fluff-is-a-tenth: size >= 0 ==> 0 <= as(result, *Bin).fluff && as(result, *Bin).fluff <= size
@@ -42,7 +44,9 @@ package payload
 //@   ensures  not-split: n < 1 || n >= old(len(bin.parts)) ==> result == nil && len(bin.parts) == old(len(bin.parts)) && bin.bytes == old(bin.bytes)
 //@   on return assert head-tail: 1 <= n && n < old(len(bin.parts)) ==> result != nil && len(bin.parts) == n && len(b.parts) == old(len(bin.parts)) - n && forall(k, 0, n, bin.parts[k] == old(bin.parts[k])) && forall(k, 0, old(len(bin.parts)) - n, b.parts[k] == old(bin.parts[n+k])) && bin.bytes + b.bytes == old(bin.bytes) && as(result, *Bin) == b
 //@   on return assert tail-size-is-sum: 1 <= n && n < old(len(bin.parts)) ==> b.bytes == nb && b.capacity == nb && i == old(len(bin.parts))
+//@   on return assert tail-size-is-sum-of-tail: 1 <= n && n < old(len(bin.parts)) ==> b.bytes == old(psum(bin.parts, n, len(bin.parts)))
 //@   loop 0 invariant n <= i && i <= len(bin.parts)
+//@   loop 0 invariant running-sum: nb == psum(bin.parts, n, i)
 
 //@ func (*Bin).Remove
 //@   on return assert removes-that-part: index >= 0 ==> len(bin.parts) == old(len(bin.parts)) - 1 && old(bin.parts[index]) == as(binned, *part) && bin.bytes == old(bin.bytes) - (old(bin.parts[index].end) - old(bin.parts[index].beg))
